@@ -175,4 +175,110 @@ theorem walkAttrs_priors (f : Nat → String) (g : Nat → Nat) :
   | nil => simp [walkAttrs]
   | cons i rest ih => simp [walkAttrs, walk, ih]
 
+
+/-! ## prior ids of a class composed without keywords -/
+
+
+theorem walkAttrs_app (a b : List (String × Node V)) : walkAttrs (a ++ b) = walkAttrs a ++ walkAttrs b := by
+  induction a with
+  | nil => simp [walkAttrs]
+  | cons x rest ih => obtain ⟨k, n⟩ := x; simp [walkAttrs, ih]
+
+theorem walkAttrs_opaque : ∀ (l : List (String × Node V)), (∀ x ∈ l, ∃ t, x.2 = Node.opaque t) → walkAttrs l = [] := by
+  intro l
+  induction l with
+  | nil => intro _; simp [walkAttrs]
+  | cons x rest ih =>
+    intro h
+    obtain ⟨k, n⟩ := x
+    obtain ⟨t, ht⟩ := h (k, n) (by simp)
+    simp only at ht; subst ht
+    simp [walkAttrs, walk, ih (fun y hy => h y (List.mem_cons_of_mem _ hy))]
+
+theorem walkAttrs_strDefaults (args : List (String × ArgD)) (attrs : List (String × Node V)) :
+    walkAttrs (strDefaults args attrs) = [] := by
+  apply walkAttrs_opaque
+  intro x hx
+  simp only [strDefaults, List.mem_filterMap] at hx
+  obtain ⟨⟨a, d⟩, _, hd⟩ := hx
+  cases d <;> simp at hd
+  exact ⟨_, by rw [← hd.2]⟩
+
+theorem map_snd_pre (k : String) (w : List (Path × Nat)) :
+    (w.map (fun (p, i) => (k :: p, i))).map (·.2) = w.map (·.2) := by
+  simp [List.map_map, Function.comp_def]
+
+theorem range'_glue (n a b : Nat) (h1 : n ≤ a) (h2 : a ≤ b) :
+    List.range' n (a - n) ++ List.range' a (b - a) = List.range' n (b - n) := by
+  have : List.range' a (b - a) = List.range' (n + (a - n)) (b - a) := by congr 1; omega
+  rw [this, List.range'_append_1]; congr 1; omega
+
+end AF
+namespace AF
+mutual
+theorem mkSub_walk {V : Type} (c : String) (as : List (String × ArgD)) (n : Nat) :
+    (walk (mkSub (V := V) c as n).1).map (·.2) = List.range' n ((mkSub (V := V) c as n).2 - n)
+      ∧ n ≤ (mkSub (V := V) c as n).2 := by
+  have h := mkDefaults_walk (V := V) as n
+  simp only [mkSub, walk, walkAttrs_app, walkAttrs_strDefaults, List.append_nil]
+  exact h
+theorem mkDefaults_walk {V : Type} : ∀ (as : List (String × ArgD)) (n : Nat),
+    (walkAttrs (mkDefaults (V := V) as n).1).map (·.2) = List.range' n ((mkDefaults (V := V) as n).2 - n)
+      ∧ n ≤ (mkDefaults (V := V) as n).2
+  | [], n => by simp [mkDefaults, walkAttrs]
+  | (a, .str t) :: rest, n => by simpa [mkDefaults] using mkDefaults_walk (V := V) rest n
+  | (a, .opt) :: rest, n => by simpa [mkDefaults, walkAttrs, walk] using mkDefaults_walk (V := V) rest n
+  | (a, .cfg) :: rest, n => by
+    have ih := mkDefaults_walk (V := V) rest (n + 1)
+    simp only [mkDefaults, walkAttrs, walk, List.map_cons, List.map_nil, List.singleton_append]
+    refine ⟨?_, by omega⟩
+    rw [ih.1]
+    have : (mkDefaults (V := V) rest (n + 1)).2 - n = ((mkDefaults (V := V) rest (n + 1)).2 - (n + 1)) + 1 := by omega
+    rw [this, List.range'_succ]
+  | (a, .tup k) :: rest, n => by
+    have ih := mkDefaults_walk (V := V) rest (n + k)
+    simp only [mkDefaults, walkAttrs, List.map_append, map_snd_pre]
+    refine ⟨?_, by omega⟩
+    have hw : (walk (mkTuple (V := V) a k n)).map (·.2) = List.range' n k := by
+      simp only [mkTuple, walk, walkAttrs_priors, List.map_map, Function.comp_def]
+      rw [List.range'_eq_map_range]
+    rw [hw, ih.1]
+    have := range'_glue n (n + k) (mkDefaults (V := V) rest (n + k)).2 (by omega) ih.2
+    simpa using this
+  | (a, .sub c as) :: rest, n => by
+    have hs := mkSub_walk (V := V) c as n
+    have ih := mkDefaults_walk (V := V) rest (mkSub (V := V) c as n).2
+    simp only [mkDefaults, walkAttrs, List.map_append, map_snd_pre]
+    refine ⟨?_, by omega⟩
+    rw [hs.1, ih.1]
+    exact range'_glue n _ _ hs.2 ih.2
+end
+end AF
+
+namespace AF
+theorem sortById_of_sorted {α} : ∀ (l : List (α × Nat)), l.Pairwise (fun a b => a.2 ≤ b.2) → sortById l = l := by
+  intro l
+  induction l with
+  | nil => intro _; rfl
+  | cons x rest ih =>
+    intro h
+    have hr := ih (List.Pairwise.of_cons h)
+    have : sortById (x :: rest) = sortById.insertByIdFront x (sortById rest) := rfl
+    rw [this, hr]
+    cases rest with
+    | nil => rfl
+    | cons y ys =>
+      have hxy : x.2 ≤ y.2 := List.rel_of_pairwise_cons h (by simp)
+      simp [sortById.insertByIdFront, hxy]
+
+theorem pairwise_le_of_map_range' {α} (l : List (α × Nat)) (n k : Nat) (h : l.map (·.2) = List.range' n k) :
+    l.Pairwise (fun a b => a.2 ≤ b.2) := by
+  have hp : (l.map (·.2)).Pairwise (· ≤ ·) := by
+    rw [h]; exact List.Pairwise.imp (fun h => Nat.le_of_lt h) (List.pairwise_lt_range')
+  exact List.pairwise_map.mp hp
+
+/-- a class composed without keywords advertises its parameters in constructor-argument order -/
+theorem paths_mkSub {V : Type} (c : String) (as : List (String × ArgD)) (n : Nat) :
+    pathPriors (mkSub (V := V) c as n).1 = walk (mkSub (V := V) c as n).1 :=
+  sortById_of_sorted _ (pairwise_le_of_map_range' _ _ _ (mkSub_walk c as n).1)
 end AF
